@@ -355,13 +355,18 @@ class Tracer:
         return [e[1:] for e in self.events if e[0] == id(circuit_map)]
 
 
-def run_router(spec, timeout=20.0):
-    """returns dict with routed circuit, final layout, trace, initial blocks (None for star)"""
+def run_router(spec, timeout=20.0, router=None):
+    """returns dict with routed circuit, final layout, trace, initial blocks (None for star).
+    router = an existing router object to REUSE: its connectivity is (re)assigned before the call,
+    exactly as Passes.__call__ / a user switching devices does"""
     from qibo.transpiler import router as R
     graph = build_graph(spec)
     circuit = build_circuit(spec)
     before = queue_canon(circuit)
-    router = build_router(spec, graph)
+    if router is None:
+        router = build_router(spec, graph)
+    else:
+        router.connectivity = graph
     info = {"circuit": circuit, "graph": graph, "router": router, "before": before}
     captured = {}
     orig_init = R.CircuitMap.__init__
@@ -743,6 +748,51 @@ def defect_cases(rng):
     return out
 
 
+def router_histories(tier, rng):
+    """ONE router object used for 2-4 calls; the connectivity CHANGES between the calls (different
+    graph / different star centre on the same node names, or a relabelled device), re-assigned
+    through router.connectivity before every call as Passes.__call__ does"""
+    out = []
+    nh = 45 if tier == "quick" else 200
+    for h in range(nh):
+        kind = ("StarConnectivityRouter", "Sabre", "ShortestPaths")[h % 3]
+        if kind == "StarConnectivityRouter":
+            n = 5
+            names = rng.choice([list(range(5)), rng.sample(range(12), 5), [f"q{i}" for i in rng.sample(range(9), 5)]])
+            rkw = {}
+        else:
+            n = rng.randint(3, 6)
+            names = rng.choice([list(range(n)), rng.sample(range(3 * n), n), [f"q{i}" for i in rng.sample(range(2 * n), n)]])
+            rkw = sabre_kw(rng) if kind == "Sabre" else {"seed": rng.randrange(1000)}
+        calls = []
+        centres = rng.sample(range(n), min(n, 4))
+        for c in range(rng.randint(2, 4)):
+            if kind == "StarConnectivityRouter":
+                ctr = centres[c % len(centres)]          # a different centre on the same node names
+                edges = [[names[ctr], names[j]] for j in range(n) if j != ctr]
+                g = nx.Graph(); g.add_nodes_from(names); g.add_edges_from(tuple(e) for e in edges)
+            else:
+                base = rng.choice([nx.path_graph(n), nx.cycle_graph(n) if n >= 3 else nx.path_graph(n), nx.star_graph(n - 1)])
+                perm = rng.sample(range(n), n)
+                g = nx.Graph(); g.add_nodes_from(names)
+                g.add_edges_from((names[perm[a]], names[perm[b]]) for a, b in base.edges())
+            wn = list(names)
+            rng.shuffle(wn)
+            gs = gen_gates(rng, n, rng.randint(2, 10), pmid=0, style=rng.choice(["mixed", "far", "hot"]))
+            if rng.random() < 0.5:
+                gs += [g_ for g_ in gen_trailing(rng, n) if len(g_[1]) != 3 or kind != "x"]
+            calls.append(mk_spec(g, wn, gs, [kind, rkw]))
+        out.append({"router": [kind, rkw], "calls": calls})
+    return out
+
+
+def run_router_history(hspec, timeout=20.0):
+    """[(spec, info)]: the calls of one router object; connectivity re-assigned before each call"""
+    first = hspec["calls"][0]
+    router = build_router(first, build_graph(first))
+    return [(sp, run_router(sp, timeout=timeout, router=router)) for sp in hspec["calls"]]
+
+
 def classify(spec):
     gs = spec["gates"]
     if any(g[0] == "U" and "m0" in g[2] for g in gs):
@@ -781,11 +831,12 @@ def theorem_obligations(run, theory="C09/Props"):
     run.notes.setdefault("print_assumptions", {}).update(res)
 
 
-def process(run, cases, label, found, stats, timeout):
-    """run the real routers, spec checks, and collect Coq terms"""
+def process(run, cases, label, found, stats, timeout, infos=None, hist_of=None):
+    """run the real routers, spec checks, and collect Coq terms.
+    infos / hist_of: precomputed runs of multi-call histories (one router object reused)"""
     pending = []
     for nm, spec in cases:
-        info = run_router(spec, timeout=timeout)
+        info = infos[id(spec)] if infos is not None else run_router(spec, timeout=timeout)
         rname = spec["router"][0]
         stats[rname] = stats.get(rname, 0) + 1
         bad = spec_checks(spec, info)
@@ -805,7 +856,10 @@ def process(run, cases, label, found, stats, timeout):
             if key.startswith("timeout:"):
                 continue     # termination is not part of the property (safety only); counted in stats
             if key not in found:
-                found[key] = (what, {"spec": spec, "graph": nm, **extra})
+                hx = hist_of.get(id(spec), {}) if hist_of else {}
+                if hx:
+                    what = what + f" [call {hx['call_index']} of a history reusing ONE router object with the connectivity re-assigned]"
+                found[key] = (what, {"spec": spec, "graph": nm, **extra, **hx})
         terms = None
         if classify(spec) == "meas_basis":
             pass      # basis rotations are re-inserted by Circuit.add / copy: outside the router model
@@ -960,6 +1014,17 @@ def main(run):
     cases = main_cases(run.tier, rng)
     pend = process(run, cases, "main", found, stats, t_lim)
     coq_batches(run, pend, "main", found, stats)
+    hcases, infos, hist_of = [], {}, {}
+    for hspec in router_histories(run.tier, rng):
+        for i, (sp, info) in enumerate(run_router_history(hspec, timeout=t_lim)):
+            hcases.append(("history", sp))
+            infos[id(sp)] = info
+            hist_of[id(sp)] = {"router_history": hspec, "call_index": i}
+            stats["history_calls"] = stats.get("history_calls", 0) + 1
+            if i > 0:
+                stats["calls_on_a_reused_router_with_changed_connectivity"] = stats.get("calls_on_a_reused_router_with_changed_connectivity", 0) + 1
+    pend = process(run, hcases, "hist", found, stats, t_lim, infos=infos, hist_of=hist_of)
+    coq_batches(run, pend, "hist", found, stats)
     dcases = defect_cases(rng)
     pend = process(run, dcases, "defects", found, stats, t_lim)
     coq_batches(run, pend, "defects", found, stats)
@@ -975,6 +1040,20 @@ def main(run):
 
 def replay(run, data):
     rp = data.get("replay", {})
+    if rp.get("router_history"):
+        hspec = rp["router_history"]
+        run.oblige("replay_executed", True, "replay")
+        anybad = False
+        for i, (sp, info) in enumerate(run_router_history(hspec, timeout=60.0)):
+            run.case([sp["edges"], sp["wire_names"], sp["gates"], sp["router"]])
+            for key, what, extra in spec_checks(sp, info):
+                print(f"replay reproduces (call {i} of the router history):", key, what)
+                run.find(key, what, {"router_history": hspec, "call_index": i, **extra})
+                anybad = True
+        run.sample({"router_history": hspec})
+        if not anybad:
+            print("replay: the recorded router history passes now (", data.get("key"), ")")
+        return run.finish(rule="replay of one recorded multi-call router history")
     spec = rp.get("spec")
     if not spec:
         print("replay: nothing to re-run for", data.get("key"))
